@@ -2,7 +2,7 @@ SPECIFICATION Spec
 CONSTANTS
   N = 3
   Refs = {"a", "b"}
-  MaxDepth = 4
+  MaxDepth = 5
   MaxPacks = 2
   WithCopies = TRUE
   WithIdx = FALSE
